@@ -265,4 +265,15 @@ def run(ctx):
         ctx.check(any("can_collect" in c and "core::slice::len($0)" in c and "<" in c for c in cs), RP,
                   "StreamingDecoder::read::only-while-short", H.loc(sb, dc), "decode more only while fewer bytes than requested are collectable",
                   observed=cs)
+        # the multi-frame call decodes into a caller-sized target: every decode step it takes must be byte-budgeted by a
+        # constant (a declared content size is not enforced anywhere, so it cannot serve as the budget)
+        ab = ctx.hir(FD + "::decode_all")
+        acf = hq.Canon(ab, inline=True, max_depth=4, force=True)
+        dcs = [x for x in hq.find(ab["body"], lambda x: x.get("k") == "MethodCall" and x["name"] == "decode_blocks")]
+        args = [acf(x["args"][1]) for x in dcs]
+        pre = "ruzstd::decoding::frame_decoder::BlockDecodingStrategy::UptoBytes("
+        ok = len(args) >= 1 and all(a.startswith(pre) and a[len(pre):-1].isdigit() and int(a[len(pre):-1]) <= 16 * 1024 * 1024 for a in args)
+        ctx.check(ok, RP, "decode_all::every-decode-step-is-byte-budgeted", ab["file"],
+                  "decode_all must call decode_blocks only with UptoBytes(<constant>) (never All / UptoBlocks, never a size taken from the frame)",
+                  observed=args)
     ctx.guard(RP, "budget", budget)
